@@ -254,3 +254,85 @@ func replayC12BadCond(rc *runCtx, h *harness, v *interp.Violation, file string) 
 	}
 	return false, "the condition evaluated to " + strings.TrimSpace(out.String())
 }
+
+const ruleVersionTest = `package checkers_test
+
+import (
+	"fmt"
+	"go/ast"
+	"go/importer"
+	"go/parser"
+	"go/token"
+	"go/types"
+	"os"
+	"path/filepath"
+	"testing"
+
+	"github.com/go-critic/go-critic/checkers"
+	"github.com/go-critic/go-critic/linter"
+)
+
+const gsxRule = "package gorules\n\nimport \"github.com/quasilyte/go-ruleguard/dsl\"\n\nfunc gated(m dsl.Matcher) {\n\tm.Match(` + "`gsxTarget($x)`" + `).Where(m.GoVersion().GreaterEqThan(\"1.18\")).Report(\"needs go1.18\")\n}\n"
+
+const gsxProg = "package cand\n\nfunc gsxTarget(x int) {}\n\nfunc f() { gsxTarget(1) }\n"
+
+func TestGSXRuleVersion(t *testing.T) {
+	_ = checkers.InitEmbeddedRules // the package's own test init has registered the embedded rules
+	dir := t.TempDir()
+	rules := filepath.Join(dir, "rules.go")
+	os.WriteFile(rules, []byte(gsxRule), 0o644)
+	fset := token.NewFileSet()
+	f, err := parser.ParseFile(fset, "cand.go", gsxProg, 0)
+	if err != nil {
+		t.Fatal(err)
+	}
+	tinfo := &types.Info{Types: map[ast.Expr]types.TypeAndValue{}, Defs: map[*ast.Ident]types.Object{}, Uses: map[*ast.Ident]types.Object{},
+		Implicits: map[ast.Node]types.Object{}, Selections: map[*ast.SelectorExpr]*types.Selection{}, Scopes: map[ast.Node]*types.Scope{}}
+	pkg, err := (&types.Config{Importer: importer.Default()}).Check("cand", fset, []*ast.File{f}, tinfo)
+	if err != nil {
+		t.Fatal(err)
+	}
+	for _, ver := range []string{"1.17", "1.18"} {
+		var info *linter.CheckerInfo
+		for _, x := range linter.GetCheckersInfo() {
+			if x.Name == "ruleguard" {
+				info = x
+			}
+		}
+		info.Params["rules"].Value = rules
+		ctx := linter.NewContext(fset, types.SizesFor("gc", "amd64"))
+		ctx.SetGoVersion(ver)
+		ctx.SetPackageInfo(tinfo, pkg)
+		c, err := linter.NewChecker(ctx, info)
+		if err != nil {
+			t.Fatal(err)
+		}
+		ctx.SetFileInfo("cand.go", f)
+		ws := c.Check(f)
+		fmt.Printf("GSX-VERSION\t%s\t%d\n", ver, len(ws))
+	}
+}
+`
+
+// replayRuleVersion: a user rule gated on Go >= 1.18 must stay silent when the configured version is 1.17.
+func replayRuleVersion(rc *runCtx, h *harness, v *interp.Violation, file string) (bool, string) {
+	if !strings.Contains(v.Msg, "user-rules checker") {
+		return false, "no native replay for the embedded-rules hand-over (engine model only)"
+	}
+	tmp, err := os.MkdirTemp("", "gsx-rulever-")
+	if err != nil {
+		return false, err.Error()
+	}
+	defer os.RemoveAll(tmp)
+	tf := filepath.Join(tmp, "zz_verif_rulever_test.go")
+	os.WriteFile(tf, []byte(ruleVersionTest), 0o644)
+	out, err := runGoTest(tmp, map[string]string{filepath.Join(repoDir, "checkers", "zz_verif_rulever_test.go"): tf},
+		[]string{"-v", "-vet=off", "-count=1", "-run", "^TestGSXRuleVersion$", "./checkers"}, nil)
+	if err != nil {
+		return false, err.Error()
+	}
+	if strings.Contains(out, "GSX-VERSION\t1.17\t1") {
+		return true, "a user rule filtered with GoVersion().GreaterEqThan(\"1.18\") reports under -go=1.17: the configured version never reaches the engine"
+	}
+	return false, "native: " + lastLines(out, 3)
+}
